@@ -132,12 +132,15 @@ struct A {
 	{
 		size_t c0 = cap();
 		int r = json_object_array_put_idx(arr, idx, e.p);
-		if (idx >= SIZE_MAX / 8)
+		if (idx >= SIZE_MAX / 8 || (idx >= ((size_t)1 << 40) && r != 0))
 		{
+			// beyond what can be addressed, or (2^40..2^60) beyond what this machine can allocate: refused, nothing changes
 			f_hugeidx = true;
 			refused(r, "put_idx(" + str(idx) + ")", &e);
 			return;
 		}
+		if (idx >= ((size_t)1 << 40))
+			ctx.fail("HARNESS", "a 2^40-slot array was allocated; the model cannot follow");
 		log("put_idx " + str(idx) + " #" + str(e.id));
 		if (r != 0)
 			ctx.fail("retval", "put_idx(" + str(idx) + ") returned " + str(r) + " on an array of length " + str(m.size()));
@@ -165,7 +168,7 @@ struct A {
 	{
 		size_t c0 = cap();
 		int r = json_object_array_insert_idx(arr, idx, e.p);
-		if (idx >= SIZE_MAX / 8)
+		if (idx >= SIZE_MAX / 8 || (idx >= ((size_t)1 << 40) && r != 0))
 		{
 			f_hugeidx = true;
 			refused(r, "insert_idx(" + str(idx) + ")", &e);
@@ -309,8 +312,10 @@ static size_t pick_idx(Choices &c, A &a)
 }
 static size_t huge_idx(Choices &c)
 {
-	switch (c.pickn(5))
+	switch (c.pickn(7))
 	{
+	case 5: return ((size_t)1 << c.range(40, 59)) + (size_t)c.range(0, 1000); // passes the overflow guards, fails in the allocator
+	case 6: return ((size_t)1 << 60) - (size_t)c.range(1, 1000);
 	case 0: return SIZE_MAX;
 	case 1: return SIZE_MAX - 1;
 	case 2: return SIZE_MAX / 8;
